@@ -326,4 +326,44 @@ class C08f(Obligation):
         ctx.check(script._code == ('given = 2\n' if code_given else 'text_on_disk = 1\n'), 'Script keeps the analysed text')
 
 
-OBLIGATIONS = [C08a, C08b, C08c, C08d, C08e, C08f]
+from jedi.inference import parser_cache as _parser_cache  # noqa: E402
+
+
+class _FuncNode:
+    """a funcdef node that the diff parser kept (same object) while its body changed"""
+
+    def __init__(self):
+        self.yields = []
+
+    def iter_yield_exprs(self):
+        return iter(list(self.yields))
+
+
+class C08g(Obligation):
+    id = 'C08.g'
+    title = 'facts derived from the tree (the yield expressions of a function) are memoised per inference state only: a new Script never sees what an earlier Script derived from an earlier version of the SAME node'
+    pattern = 'P2 (two inference states, one reused node whose body changes in between; numbers of yields symbolic)'
+    assumptions = (
+        'the incremental parser reuses the funcdef node object across versions (its def line is unchanged) while the yields '
+        'in its body change: n1, n2 <= 3 (symbolic); each Script has its own inference state with an empty memoize_cache',
+    )
+
+    def scenario(self, ctx, cfg):
+        n1 = ctx.choice('yields_in_version1', 4)
+        n2 = ctx.choice('yields_in_version2', 4)
+        ctx.int('unused')
+        node = _FuncNode()
+        node.yields = ['v1-yield%d' % i for i in range(n1)]
+        state1 = Obj(memoize_cache={}, tag='state-of-script1')
+        state2 = Obj(memoize_cache={}, tag='state-of-script2')
+        first = ctx.call(_parser_cache.get_yield_exprs, state1, node)
+        node.yields = ['v2-yield%d' % i for i in range(n2)]          # the edit
+        second = ctx.call(_parser_cache.get_yield_exprs, state2, node)
+        ctx.check(first.exc is None and second.exc is None, 'never raises')
+        if first.exc is None and second.exc is None:
+            ctx.check(list(first.value) == ['v1-yield%d' % i for i in range(n1)], 'version 1 is answered from version 1')
+            ctx.check(list(second.value) == ['v2-yield%d' % i for i in range(n2)],
+                      'a later Script answers from the CURRENT body of the node, whatever an earlier Script memoised')
+
+
+OBLIGATIONS = [C08a, C08b, C08c, C08d, C08e, C08f, C08g]
